@@ -6,6 +6,8 @@ import EaselModel.Getopts.RealOrder
 import EaselModel.Getopts.Tokens
 import EaselModel.Getopts.WfCheck
 import EaselModel.Getopts.AllocHist
+import EaselModel.Getopts.IllFormed
+import EaselModel.Getopts.HelpLemmas
 /-! # C14 — option processing resolves every configuration by the documented rules
 
 Property theorems about the executable model `EaselModel.Getopts` of `esl_getopts.c` (tied to the working tree by
@@ -27,6 +29,11 @@ and every sequence of sources:
 * allocation layer of `set_option` (`do_alloc`, `valloc[]`, block reuse across config files; `Alloc.lean`): `alloc_store_exact`,
   `alloc_set_option_refines`, `alloc_valloc_after_set`, `alloc_source_refines`, `alloc_cfg_text_args`, `alloc_history_refines`,
   `alloc_created_history`, `alloc_reuse_is_fresh`
+* tables that are NOT well formed (no hypothesis on the table): `create_on_any_table`, `create_never_crashes`,
+  `create_does_not_check_lists`, `unknown_name_in_toggle_list`, `unknown_name_in_required_list`, `set_option_crash_site_unreachable`
+* text produced from table / configuration: `displayHelp_fails_iff`, `displayHelp_output_documented`,
+  `spoofed_cmdline_lists_set_and_on_options`, `spoofCmdline_never_crashes`; integers beyond `int`:
+  `accepted_integer_satisfies_range_as_getter_returns_it`
 * (f) queries: `isUsed_iff`, `isDefault_of_default_setter`, `not_default_has_setter`
 
 Not proved here (checked by the differential run only): that the decimal `strtod`/`strtol` models agree with glibc;
@@ -666,5 +673,93 @@ example : (createC demo).isSome = true ∧ wfB demo = true := by decide
 /-- then the command line sets `-n`: the block is freed (`valloc = 0`), the value points into `argv` -/
 example : (allocDemo.bind fun c => match processCmdlineC c [s "prog", s "-n", s "5"] with
     | .done c' .ok false => some (c'.valOf 3, c'.vallocOf 3) | _ => none) = some (.stat (s "5"), 0) := by decide
+
+/-! ## option tables that are not well formed: the documented error, never a crash -/
+
+/-- `esl_getopts_Create` on ANY table: NULL (`eslEINVAL`) iff a name lacks its `-` or a default fails its own
+    type/range check; otherwise the all-default object -/
+theorem create_on_any_table (opts : List Opt) :
+    (create opts = none ↔ (∃ o ∈ opts, o.name.head? ≠ some '-') ∨ (∃ o ∈ opts, verifyTypeRange o o.defval byDefault ≠ .good)) ∧
+    (∀ g, create opts = some g → g.opts = opts ∧ g.val = opts.map defaultVal ∧ g.setby = opts.map (fun _ => byDefault) ∧
+      g.nfiles = 0 ∧ g.spoofed = false ∧ g.optind = 1 ∧ g.argv = []) := create_any_table opts
+
+/-- the default check — the only code `Create` runs on table content — cannot reach `strlen(NULL)` -/
+theorem create_never_crashes (o : Opt) : verifyTypeRange o o.defval byDefault ≠ .fault := verify_default_never_faults o
+
+/-- duplicate names, unknown names in toggle/required/incompatible lists, ranges on string options: not looked at by `Create` -/
+theorem create_does_not_check_lists (opts : List Opt) (h1 : ∀ o ∈ opts, o.name.head? = some '-') (h2 : ∀ o ∈ opts, o.defval = none) :
+    (create opts).isSome = true := create_accepts_unchecked_defects opts h1 h2
+
+/-- … they are reported as `eslEINVAL` when the list is walked: by `set_option` -/
+theorem unknown_name_in_toggle_list (g : G) (i src : Nat) (e : Str) (es : List Str) (h : optlistResolve g.opts e = none) :
+    toggleLoop g i src (e :: es) = .done g .einval false := unknown_toggle_name_is_einval g i src e es h
+
+/-- … and by `esl_opt_VerifyConfig` -/
+theorem unknown_name_in_required_list (g : G) (e : Str) (es : List Str) (h : optlistResolve g.opts e = none) :
+    reqLoop g (e :: es) = some (.einval, false) ∧ ∀ i, incLoop g i (e :: es) = some (.einval, false) :=
+  unknown_required_name_is_einval g e es h
+
+/-- on any table `set_option` has a single crash site (`strlen(NULL)`: character option, no argument) and no source reaches it -/
+theorem set_option_crash_site_unreachable (g : G) (i : Nat) (arg : Option Str) (src : Nat) (h : arg.isSome ∨ (g.opt i).type ≠ 3) :
+    setOption g i arg src ≠ .fault := set_option_any_table_no_fault g i arg src h
+
+/-- ill-formed tables: two options named `-a`, a toggle list naming `--zz`, a range on a string option — accepted by
+    `Create`; an integer default `x`, a malformed range `=n<5` (fix 843fbc5), a name without `-` — refused -/
+def illT : List Opt := [{ name := s "-a", type := 0, toggle := some (s "--zz") }, { name := s "-a", type := 4, range := some (s "s<3") }]
+example : (create illT).isSome = true ∧ (∀ o ∈ illT, o.name.head? = some '-') ∧ (∀ o ∈ illT, o.defval = none) := by decide
+example : create [{ name := s "-n", type := 1, defval := some (s "x") }] = none ∧
+    create [{ name := s "-n", type := 1, defval := some (s "3"), range := some (s "=n<5") }] = none ∧
+    create [{ name := s "n", type := 0 }] = none ∧ create [{ name := s "-t", type := 9, defval := some (s "v") }] = none := by decide
+example : (match (create illT).map (fun g => processCmdline g [s "prog", s "-a"]) with | some (.done _ st m) => some (st, m) | _ => none)
+    = some (.einval, false) := by decide
+example : optlistResolve illT (s "--zz") = none := by decide
+
+/-! ## `esl_opt_DisplayHelp`, `esl_opt_SpoofCmdline`, integers as `esl_opt_GetInteger` returns them -/
+
+theorem displayHelp_fails_iff (rows : List HelpRow) (docgroup indent textwidth : Nat) :
+    displayHelp rows docgroup indent textwidth = none ↔
+      textwidth < indent + maxOf HelpRow.optWidth (rows.filter (·.selected docgroup)) + maxOf HelpRow.w2 (rows.filter (·.selected docgroup)) :=
+  displayHelp_none_iff rows docgroup indent textwidth
+
+/-- one line per option of the docgroup in table order, common column for ` :`, defaults / ranges shown for all lines
+    or none, every line at most `textwidth + 2` characters -/
+theorem displayHelp_output_documented (rows : List HelpRow) (docgroup indent textwidth : Nat) (lines : List Str)
+    (h : displayHelp rows docgroup indent textwidth = some lines) :
+    lines.length = (rows.filter (·.selected docgroup)).length ∧
+    (∀ l ∈ lines, l.length ≤ textwidth + 2) ∧
+    ∃ showDef showRange, ∀ k (hk : k < (rows.filter (·.selected docgroup)).length),
+      lines[k]? = some (helpLine indent (maxOf HelpRow.optWidth (rows.filter (·.selected docgroup))) showDef showRange
+                          ((rows.filter (·.selected docgroup))[k])) ∧
+      (helpLine indent (maxOf HelpRow.optWidth (rows.filter (·.selected docgroup))) showDef showRange
+          ((rows.filter (·.selected docgroup))[k])).take (indent + maxOf HelpRow.optWidth (rows.filter (·.selected docgroup)) + 2) =
+        spaces indent ++ (((rows.filter (·.selected docgroup))[k]).name ++ argTag ((rows.filter (·.selected docgroup))[k]).type) ++
+          spaces (maxOf HelpRow.optWidth (rows.filter (·.selected docgroup)) -
+                    (((rows.filter (·.selected docgroup))[k]).name ++ argTag ((rows.filter (·.selected docgroup))[k]).type).length) ++ [' ', ':'] :=
+  displayHelp_documented rows docgroup indent textwidth lines h
+
+theorem spoofed_cmdline_lists_set_and_on_options (g : G) (i : Nat) (ws : List Str) (h : spoofOptWords g i = some ws) :
+    ws ≠ [] ↔ (g.setter i ≠ byDefault ∧ isOn g i = true) := spoofOptWords_listed_iff g i ws h
+
+theorem spoofCmdline_never_crashes (g : G) (hargv : g.argv ≠ []) (hval : ∀ i, (g.opt i).type ≠ 0 → g.valOf i ≠ .one) :
+    (spoofCmdline g).isSome = true := spoofCmdline_total g hargv hval
+
+theorem accepted_integer_satisfies_range_as_getter_returns_it {g g' : G} {i src : Nat} {v : Str} {m : Bool} (hinv : Inv g)
+    (hi : i < g.opts.length) (ht : (g.opt i).type = 1) (h : setOption g i (some v) src = .done g' .ok m) :
+    g'.valOf i = .str v ∧ getInteger g' i = atoi v ∧ isInteger v = true ∧ intRangeOk v (g.opt i).range = true :=
+  accepted_integer_read_consistently hinv hi ht h
+
+/-- help for a two-row table at three widths: everything, defaults only, bare, too narrow -/
+def helpRows : List HelpRow := [⟨s "-n", 1, some (s "count"), some (s "3"), some (s "n>0"), 1⟩, ⟨s "--all", 0, some (s "everything"), none, none, 2⟩]
+example : displayHelp helpRows 0 2 26 = some [s "  -n <n> : count  [3]  (n>0)", s "  --all  : everything"] := by decide
+example : displayHelp helpRows 0 2 25 = some [s "  -n <n> : count  [3]", s "  --all  : everything"] := by decide
+example : displayHelp helpRows 0 2 19 = some [s "  -n <n> : count  [3]", s "  --all  : everything"] := by decide
+example : displayHelp helpRows 0 2 18 = none ∧ displayHelp helpRows 2 2 18 = some [s "  --all : everything"] := by decide
+/-- the separator is not counted: a line of 21 characters for `textwidth = 19` (the bound `textwidth + 2` is attained) -/
+example : (s "  --all  : everything").length = 21 := by decide
+/-- `prog -b x`: `--no-b` was toggled off by `-b` and is not listed (fix af97bd9); integers beyond `int` -/
+example : ((match processCmdline demoG [s "prog", s "-b", s "-n", s "7", s "x"] with | .done g .ok _ => spoofCmdline g | _ => none)) =
+    some (s "prog -b -n 7 x ") := by decide
+example : atoi (s "4294967301") = 5 ∧ atoi (s "2147483648") = -2147483648 ∧ atoi (s "9223372036854775808") = -1 ∧
+    intRangeOk (s "4294967296") (some (s "n>0")) = false ∧ intRangeOk (s "4294967301") (some (s "n>0")) = true := by decide
 
 end EaselModel.Props.C14
